@@ -66,6 +66,31 @@ def live(ts: TS) -> TS:
     return frozenset(t for t in ts if t[0] in ("S", "E"))
 
 
+_IMMUTABLE_TOKENS = {"str", "int", "bool", "float", "bytes", "None", "Optional", "Union", "Type", "Literal", "Tuple", "tuple", "frozenset",
+                     "Any_"}
+
+
+def immutable_fields(P: Program) -> Set[str]:
+    """Attribute names that are declared (class-level annotations) ONLY with immutable types in the repository:
+    str/int/bool/float/None, Type[...] (classes), and Enum classes.  Reading such a field of a tainted object yields an
+    immutable value, i.e. nothing that can be mutated through it."""
+    import re
+    enum_or_type: Set[str] = set()
+    for c in P.classes.values():
+        if any(b.split(".")[-1] in ("Enum", "IntEnum", "StrEnum") for b in c.bases):
+            enum_or_type.add(c.name)
+    enum_or_type |= {"Role", "ScalarType", "DataType"}
+    seen: Dict[str, bool] = {}
+    for c in P.classes.values():
+        for st in c.node.body:
+            if isinstance(st, ast.AnnAssign) and isinstance(st.target, ast.Name):
+                text = st.annotation.value if isinstance(st.annotation, ast.Constant) and isinstance(st.annotation.value, str) else src(st.annotation)
+                toks = set(re.findall(r"[A-Za-z_]\w*", text))
+                imm = bool(toks) and toks <= (_IMMUTABLE_TOKENS | enum_or_type)
+                seen[st.target.id] = seen.get(st.target.id, True) and imm
+    return {k for k, v in seen.items() if v}
+
+
 @dataclass
 class MutationSite:
     func: str
@@ -92,6 +117,7 @@ class EffectAnalysis:
         self.externals_with_taint: Dict[str, int] = {}
         self.functions_analysed: Set[str] = set()
         self.unresolved_with_taint: Dict[str, int] = {}
+        self.immutable_fields = immutable_fields(P)
 
     # ---- entry -----------------------------------------------------------------------------------
     def analyse_entry(self, qualname: str) -> Summary:
@@ -304,7 +330,10 @@ class _FuncState:
         if isinstance(e, ast.Constant):
             return EMPTY
         if isinstance(e, ast.Attribute):
-            return elem(self.ev(e.value, env))
+            base = self.ev(e.value, env)
+            if e.attr in self.A.immutable_fields:
+                return EMPTY  # field annotated with an immutable type everywhere it is declared in the repo
+            return elem(base)
         if isinstance(e, ast.Subscript):
             self.ev(e.slice, env)
             return elem(self.ev(e.value, env))
@@ -447,6 +476,8 @@ class _FuncState:
                         amap[k] = amap.get(k, EMPTY) | v
                     elif a_.kwarg:
                         amap[a_.kwarg.arg] = amap.get(a_.kwarg.arg, EMPTY) | cont(v)
+                if g.name in ("__init__", "__post_init__"):
+                    out |= cont(allargs)  # a constructed object holds its arguments
                 if not any(amap.values()):
                     continue
                 summ = self.A.analyse(g, amap, self.chain + (g.qualname,))
